@@ -1089,7 +1089,7 @@ ecdsa_key_gen(ec_curve_p curve, bn_p d, ec_point_p Q) {
 	/*  d = (c mod (n − 1)) + 1 */
 	BN_RET_ON_ERR(bn_mod_reduce(d, &curve->n, &curve->n_mod_rd_data));
 	/* Q = dG */
-	ec_point_mult_bp(d, curve, Q);
+	BN_RET_ON_ERR(ec_point_mult_bp(d, curve, Q));
 	BN_RET_ON_ERR(ec_point_check_as_pub_key(Q, curve));
 	return (0);
 }
@@ -1242,7 +1242,7 @@ ecdsa_sign(ec_curve_p curve, bn_p hash, bn_p priv_key, bn_p rnd,
 	    &curve->n_mod_rd_data));
 	/* R = rnd*G */
 	/* Slow operation. */
-	ec_point_mult_bp(sign_s, curve, &R);
+	BN_RET_ON_ERR(ec_point_mult_bp(sign_s, curve, &R));
 	/* r = Rx mod n */
 	BN_RET_ON_ERR(bn_mod(&R.x, &curve->n, &curve->n_mod_rd_data));
 	if (0 != bn_is_zero(&R.x))
@@ -1454,7 +1454,7 @@ ecdsa_verify(ec_curve_p curve, bn_p hash, bn_p sign_r, bn_p sign_s,
 		return (EINVAL);
 	}
 	/* R = (Rx, Ry) = u1*G + u2*Q */
-	ec_point_twin_mult_bp(&u1, pub_key, &u2, curve, &R); /* Slow operation. */
+	BN_RET_ON_ERR(ec_point_twin_mult_bp(&u1, pub_key, &u2, curve, &R)); /* Slow operation. */
 	if (0 != R.infinity)
 		return (-1);
 	/* v = Rx mod n */
@@ -1634,7 +1634,7 @@ ecdsa_verify_priv_key(ec_curve_p curve, bn_p hash, bn_p sign_r, bn_p sign_s,
 	    &curve->n_mod_rd_data));
 	BN_RET_ON_ERR(bn_mod_add(&u2, &u1, &curve->n,
 	    &curve->n_mod_rd_data));
-	ec_point_mult_bp(&u2, curve, &R);
+	BN_RET_ON_ERR(ec_point_mult_bp(&u2, curve, &R));
 	if (0 != R.infinity)
 		return (-2);
 	/* v = Rx mod n */
@@ -1895,7 +1895,7 @@ ecdsa_recover_pub_key_from_priv_key_be(ec_curve_p curve,
 	if (bn_cmp(&d, &curve->n) >= 0) /* Key check. */
 		return (EINVAL);
 	/* Q = dG */
-	ec_point_mult_bp(&d, curve, &Q);
+	BN_RET_ON_ERR(ec_point_mult_bp(&d, curve, &Q));
 	BN_RET_ON_ERR(ec_point_check_as_pub_key(&Q, curve));
 	/* Export result. */
 	BN_RET_ON_ERR(ecdsa_pub_key_export_be(curve, pub_key_compress,
@@ -1928,7 +1928,7 @@ ecdsa_recover_pub_key_from_priv_key_le(ec_curve_p curve,
 	if (bn_cmp(&d, &curve->n) >= 0) /* Key check. */
 		return (EINVAL);
 	/* Q = dG */
-	ec_point_mult_bp(&d, curve, &Q);
+	BN_RET_ON_ERR(ec_point_mult_bp(&d, curve, &Q));
 	BN_RET_ON_ERR(ec_point_check_as_pub_key(&Q, curve));
 	/* Export result. */
 	BN_RET_ON_ERR(ecdsa_pub_key_export_le(curve, pub_key_compress,
